@@ -174,13 +174,13 @@ func h64(seed int64, parts ...interface{}) uint64 {
 
 var blkFaults = []string{"slow", "late", "silent", "err", "few", "many", "range", "fork", "unlinked", "dup", "empty"}
 var hashFaults = []string{"slow", "late", "silent", "err", "few", "many", "prev", "midfork", "empty"}
-var ancFaults = []string{"slow", "late", "silent", "nil", "bogus", "above", "low"}
+var ancFaults = []string{"slow", "late", "silent", "nil", "bogus", "above", "low", "dup"}
 var hnoFaults = []string{"slow", "late", "silent", "err", "wrong", "nilhash"}
 var addFaults = []string{"slow", "err", "dup", "wronghash"}
 
 // classes whose trigger is a response the real p2p layer cannot produce twice / a lying hash
 // list; listed in SKIP_CLASSES they are not generated (see main.go).
-var suspectClasses = []string{"dup-hno", "dup-hash", "dup-anc", "edgefork", "forgefirst"}
+var suspectClasses = []string{"dup-hno", "dup-hash", "edgefork", "forgefirst", "nopeers", "stale-addrsp"}
 
 func baseScenario(r *rand.Rand, id int) *Scenario {
 	s := &Scenario{ID: id, Seed: r.Int63()}
@@ -232,7 +232,20 @@ func genScenarios(r *rand.Rand, quick bool, skip map[string]bool) []*Scenario {
 			f(s)
 		}
 		id++
-		if skip[class] {
+		if s.Class != "skip" {
+			if mb := s.RemoteExtra - s.LocalExtra - 1; s.TargetBack > mb {
+				s.TargetBack = mb
+			}
+		}
+		if s.SideFork > s.Fork {
+			s.SideFork = s.Fork
+		}
+		for _, sus := range suspectClasses {
+			if s.Class == sus {
+				s.Restart = s.Class == "stale-addrsp"
+			}
+		}
+		if skip[s.Class] {
 			return
 		}
 		out = append(out, s)
@@ -439,13 +452,16 @@ func genScenarios(r *rand.Rand, quick bool, skip map[string]bool) []*Scenario {
 			s.Hno = append(s.Hno, "dup")
 		})
 		add("dup-hash", func(s *Scenario) {
-			s.RemoteExtra = s.LocalExtra + 6 + r.Intn(8)
-			s.HashReq = 2 + r.Intn(3)
-			s.Hash = []string{"dup", "dup", "dup"}
-		})
-		add("dup-anc", func(s *Scenario) {
-			s.FullScan = false
-			s.Anc = []string{"dup"}
+			s.RemoteExtra = s.LocalExtra + 8 + r.Intn(8)
+			s.HashReq = 3 + r.Intn(3)
+			s.BlockReq = 1
+			s.Tasks = 1
+			s.Delay = "jitter"
+			s.Hash = []string{"ok", "dup", "dup"}
+			s.BlkForever = make([]string, s.NPeers)
+			for p := range s.BlkForever {
+				s.BlkForever[p] = "slow"
+			}
 		})
 		add("edgefork", func(s *Scenario) {
 			s.RemoteExtra = s.LocalExtra + 5 + r.Intn(8)
@@ -453,6 +469,9 @@ func genScenarios(r *rand.Rand, quick bool, skip map[string]bool) []*Scenario {
 			s.HashReq = s.BlockReq * (1 + r.Intn(3))
 			s.SideFork = r.Intn(s.Fork + 1)
 			s.Hash = []string{"edgefork", "edgefork", "edgefork"}
+		})
+		add("stale-addrsp", func(s *Scenario) {
+			s.Stale = true
 		})
 		add("forgefirst", func(s *Scenario) {
 			s.RemoteExtra = s.LocalExtra + 5 + r.Intn(8)
